@@ -63,17 +63,14 @@ def run(ctx):
                 key = (c, ln, a['size'], a['ca_size'], a['ca_type'], marked, o2048)
                 nontriv.add((c, ln))
                 prev = seen.get(key)
-                notes_wo_dup = []
-                for x in a['notes']:   # a duplicated name doubles its own Terrapin mark: compare without repetition
-                    if not (TW in x[1] and x in notes_wo_dup):
-                        notes_wo_dup.append(x)
+                notes_wo_dup = list(a['notes'])
                 if prev is None:
                     seen[key] = (notes_wo_dup, pj)
                 elif prev[0] != notes_wo_dup:
                     ctx.violation('notes-depend-on-context/%s' % c, '%s %r shows notes %r here but %r for another peer with the same measured attributes' % (c, n, notes_wo_dup, prev[0]),
                                   {'op': 'output', 'peer': pj, 'other_peer': prev[1]})
-                if sum(1 for x in a['notes'] if TW in x[1]) > 1 and [m for m in (p['enc'] + p['mac'] + p.get('enc_c', []) + p.get('mac_c', [])) if m == n].__len__() < 2:
-                    ctx.violation('terrapin-note-repeated', '%s %r carries the Terrapin note more than once although it is advertised once' % (c, n), {'op': 'output', 'peer': pj})
+                if sum(1 for x in a['notes'] if TW in x[1]) > 1:
+                    ctx.violation('terrapin-note-repeated', '%s %r carries the Terrapin note more than once (the notes of an algorithm do not depend on how often the peer lists it)' % (c, n), {'op': 'output', 'peer': pj})
             else:
                 n_unknown += 1
                 if a['notes'] != [('warn', 'unknown algorithm')] or b['notes'] != [('fail', 'using unknown algorithm')]:
